@@ -339,7 +339,38 @@ def drive(ck, pid, limits):
                        "clock values, Poisson counts, tau and rate vectors are logged by wrapping module globals; rates are an oracle for the model"]
 
 
+def late_start_check(exact, seed, t0=5.0):
+    """a model whose initial time is not 0: the raw path starts at (x0, t0), its times increase from t0 on, and it reaches the
+    horizon unless it is absorbed.  -> None or what fails"""
+    import pg
+    m = pg.model(state=["S", "I", "R"], param=["b", "g"],
+                 event=[pg.Event(rate="b*S*I/(S+I+R)", transition_list=[pg.Transition(origin="S", destination="I", transition_type="T")]),
+                        pg.Event(rate="g*I", transition_list=[pg.Transition(origin="I", destination="R", transition_type="T")])])
+    m.parameters = {"b": 1.5, "g": 0.5}
+    m.initial_values = ([30.0, 3.0, 0.0], np.float64(t0))
+    T = t0 + 1.5
+    np.random.seed(seed)
+    with pg.quiet():
+        X, J, TT = m.solve_stochast(T, 2, exact=exact, full_output=True)
+    for r, (x, tt) in enumerate(zip(X, TT)):
+        x, tt = np.asarray(x, dtype=float), np.asarray(tt, dtype=float).ravel()
+        if tt[0] != t0 or list(x[0]) != [30.0, 3.0, 0.0]:
+            return "run %d (exact=%s): the path starts at time %r in state %s, the model's initial values are (%s, %r)" % (r, exact, tt[0], x[0].tolist(), [30.0, 3.0, 0.0], t0)
+        if len(tt) > 1 and not np.all(np.diff(tt) > 0):
+            return "run %d (exact=%s): recorded times are not increasing: %s" % (r, exact, tt[:6].tolist())
+        if tt[-1] < T and x[-1][1] > 0:
+            return "run %d (exact=%s): the path ends at t=%r before the horizon %r with %g infectives left" % (r, exact, tt[-1], T, x[-1][1])
+    return None
+
+
 def run(ck):
+    for exact in (True, False):
+        for sd in (1, 2):
+            inp = dict(kind="late-start", exact=exact, seed=sd)
+            ck.case(inp, nontrivial=True)
+            bad = late_start_check(exact, sd)
+            if bad:
+                ck.violation("start", bad, inp)
     ck.rule = ("bounded-rate event models (1-5 states, 1-5 events of 1-3 T/B/D transitions, magnitudes 1-3) incl. fixed "
                "one-event / one-state shapes, integer x0, exact / adaptive tau (eps 0.01,0.03,0.1) / fixed tau, one seed each; "
                "each path judged directly and replayed step by step in Coq; non-trivial = >= 3 steps and >= 2 events")
@@ -348,6 +379,8 @@ def run(ck):
 
 def replay(ck, data):
     c = data["input"]
+    if c.get("kind") == "late-start":
+        return late_start_check(c["exact"], c["seed"])
     r = run_path(c)
     j = judge(c, r)
     return j[1] if j else None
